@@ -257,6 +257,9 @@ def model_to_kwargs(c, model):
         return None
 
 
+from pyvc import bounded as bounded_mod
+
+
 def cmd_check(pid, tier, seed, opts):
     from pyvc import rtc, bounded
     t0 = time.time()
@@ -513,7 +516,12 @@ def cmd_check(pid, tier, seed, opts):
         "bounded": {"evaluations": ev_total, "distinct_nontrivial": nontriv_total,
                     "rule": meta.get("bounded_rule", "engine C: exhaustive small domains then seeded random inputs through the run-time "
                                      "reading of the same contracts on the real functions; an input is non-trivial by the per-check rule"),
-                    "checks": sorted(list(C.keys()) + list(Bn.keys())), "never_counted_as_proved": True},
+                    "checks": sorted(list(C.keys()) + list(Bn.keys())), "never_counted_as_proved": True,
+                    "integer_dtype_twins": sum(int(r.get("int_twins", 0)) for r in C.values() if isinstance(r, dict)),
+                    "fortran_layout_twins": sum(int(r.get("layout_twins", 0)) for r in C.values() if isinstance(r, dict)),
+                    "reshaped_twin_streams": sorted(k for k in Bn if getattr(bounded_mod.CHECKS.get(k), "twins", False)),
+                    "replays": "every failure is re-executed from its replay file in a fresh interpreter before it is reported; "
+                               "a failure that needs the preceding inputs is filed with the shortest reproducing history"},
         "evaluations": max(ev_total, 1), "distinct_nontrivial": max(nontriv_total, 0),
         "rule": "proof obligations are listed under obligations/discharged; evaluations/distinct_nontrivial count ONLY the bounded "
                 "stand-in runs of engine C (distinct inputs that satisfy the precondition and are non-trivial by the check's rule)",
